@@ -113,6 +113,16 @@ func (m *c12mon) Check(s *sim.Sim, st *sim.Step) []*sim.Violation {
 		U := subjectOf(s, rec, kind)
 		ac := s.AcctByPID(U)
 		accepted := U != "" && sim.SessPutAny(rec, "uid", U) && sim.SessPutAny(rec, "twofactor", kind)
+		// "values that belong to another account never succeed": whoever the session names once the step has
+		// completed, the value presented is one of THAT account's — not a code or recovery code of somebody else
+		if x, ok := sim.SessPut(rec, "uid"); ok && x != "" && sim.SessPutAny(rec, "twofactor", kind) && rec.FaultsFired == 0 && secondFactorProven(s, st, x, flow) == "" {
+			for _, o := range s.Accts {
+				if o.PID != x && rec.Before.Users[o.PID] != nil && secondFactorProven(s, st, o.PID, flow) != "" {
+					vs = append(vs, vio("C12", "value-of-another-account-completed-the-login|"+kind, "the %s step completed a login of %q with a value that is %q's (%s), not its own", kind, x, o.PID, secondFactorProven(s, st, o.PID, flow)))
+					break
+				}
+			}
+		}
 		if ac != nil && a.Secret2 != "" {
 			state := secretState(ac.Recov, a.Secret2)
 			switch {
@@ -471,7 +481,7 @@ func c12LimitInterleaved(c *RunCtx, unit int) {
 func init() {
 	register(&Check{
 		ID: "C12", Level: "exploration",
-		Rule:  "histories of generate/use/replay/clear/regenerate across 3-4 accounts and 3 browsers against a copying storer (a forgotten Save is visible), directed templates (OTP add x1-6/use/replay from same and other browser/clear/regenerate; recovery use/replay/regenerate; remove-and-enrol-again / add-the-other-kind followed by a code of the replaced batch; SMS code replay; same TOTP code twice; a login whose After(EventAuth) is answered by — or fails in — the application's own listener, followed by a replay) plus random walks whose candidate strings include spent, cleared, other accounts', never-issued and empty values and stored hashes. Ledger: every OTP shown by /otp/add, every recovery code seeded or shown, every SMS in the outbox, every accepted TOTP code. Oracle: an accepted value must be live in the ledger; after acceptance its stored form is gone (recovery list shrunk by exactly one, no remaining hash verifies it; OTP hash absent; sms_secret deleted by the same session write) and the Save precedes the session write that puts uid; <=5 OTPs per account after every request; with the replay-protecting user type the same TOTP code twice in a row is rejected. Plus, in every 25th unit, the limit of five under interleaving: an account holding 3/4/5 one-time passwords, request A (POST /otp/add) is suspended before each of its backend calls in turn while request B (the same, from another browser of the account) runs to completion; storage never holds more than five. distinct_nontrivial = distinct (flow, value class, #OTPs held, session state, outcome, mode, replay protection) signatures.",
+		Rule:  "histories of generate/use/replay/clear/regenerate across 3-4 accounts and 3 browsers against a copying storer (a forgotten Save is visible), directed templates (OTP add x1-6/use/replay from same and other browser/clear/regenerate; recovery use/replay/regenerate; remove-and-enrol-again / add-the-other-kind followed by a code of the replaced batch; SMS code replay; same TOTP code twice; a login whose After(EventAuth) is answered by — or fails in — the application's own listener, followed by a replay) plus random walks whose candidate strings include spent, cleared, other accounts', never-issued and empty values and stored hashes. Ledger: every OTP shown by /otp/add, every recovery code seeded or shown, every SMS in the outbox, every accepted TOTP code. Oracle: an accepted value must be live in the ledger; after acceptance its stored form is gone (recovery list shrunk by exactly one, no remaining hash verifies it; OTP hash absent; sms_secret deleted by the same session write) and the Save precedes the session write that puts uid; <=5 OTPs per account after every request; with the replay-protecting user type the same TOTP code twice in a row is rejected. Plus, in every 25th unit, the limit of five under interleaving: an account holding 3/4/5 one-time passwords, request A (POST /otp/add) is suspended before each of its backend calls in turn while request B (the same, from another browser of the account) runs to completion; storage never holds more than five. Whoever the session names once a second step completed, the value presented is one of THAT account's (a TOTP code of its secret, an SMS code delivered to its number, one of its recovery codes) — not one attributable to another account. distinct_nontrivial = distinct (flow, value class, #OTPs held, session state, outcome, mode, replay protection) signatures.",
 		Units: func(t string) int { return tierN(t, 500, 8000) },
 		Run: func(c *RunCtx, unit int) {
 			if unit%25 == 0 {
